@@ -319,6 +319,15 @@ def c20_ownership(name, text, k):
     return None
 
 
+INLINE_TARGETS = [(c, t) for c, ts in {
+    'NumberExpr': ['1 +\n  2', '1 + ; first\n    2 * ; second\n    3', '(1 +\n\t2) * 3', '-\n 4', '1,000.5 /\n  2'],
+    'Amount': ['(1 + ; first\n 2) USD', '10\n  USD', '1 *\n 2 USD'],
+    'CostSpec': ['{1 USD, ; lot\n 2000-01-01}', '{{\n  12 USD }}', '{1 # 2 USD,\n "label", *}'],
+    'UnitPrice': ['@ 1 *\n\t2 USD', '@\n 2 EUR'], 'TotalPrice': ['@@ 1 +\n 2 USD'],
+    'Tolerance': ['~ 0.01 /\n  2'], 'CompoundAmount': ['1 #\n 2 USD'], 'NumberParenExpr': ['(1 +\n 2)'], 'NumberUnaryExpr': ['- ; neg\n 3'],
+}.items() for t in ts]
+
+
 # ---------------------------------------------------------------- driver
 def run(prop, tier, seed):
     rnd = random.Random(seed)
@@ -346,6 +355,17 @@ def run(prop, tier, seed):
             return c01(name, text, claim)
         for name, text in corpus.eol_variants() + corpus.random_documents(seed, 150 if tier == 'quick' else 1500):
             for claim in (True, False): do((name, 'c01', claim), c01_variant, name, text, claim)
+    if prop == 'C01':
+        # single-model parse targets, written over several lines and with comments inside (no end-of-line marks there: indents and comments sit in the gaps between tree leaves)
+        def c01_target(text, clsname, claim):
+            cls = getattr(models, clsname)
+            try: m = PARSER.parse(text, cls, auto_claim_comments=claim)
+            except Exception: return None
+            if pr(m) != text: return f'target {clsname}: print(parse({text!r})) = {pr(m)!r}'
+            if tree.store_text(m.token_store) != text: return f'target {clsname}: the store of parse({text!r}) holds {tree.store_text(m.token_store)!r}'
+            return None
+        for clsname, text in INLINE_TARGETS:
+            for claim in (True, False): do((clsname + ':' + text, 'c01-target', claim), c01_target, text, clsname, claim)
     for name, text in docs:
         if prop == 'C01':
             for claim in (True, False): do((name, 'c01', claim), c01, name, text, claim)
@@ -375,7 +395,13 @@ def run(prop, tier, seed):
 
 
 def replay_case(case):
-    key = case['key']; name = key[0]; text = corpus.lookup(name)
+    key = case['key']; name = key[0]
+    if key[1] == 'c01-target':
+        clsname, text = name.split(':', 1); cls = getattr(models, clsname)
+        try: m = PARSER.parse(text, cls, auto_claim_comments=key[2])
+        except Exception: return None
+        return None if pr(m) == text and tree.store_text(m.token_store) == text else f'target {clsname}: {text!r} prints {pr(m)!r}'
+    text = corpus.lookup(name)
     CHECK_VALID[0] = case.get('prop') in ('C05', 'C14')
     fn = {'c01': c01, 'c04': c04, 'c11': c11, 'c20': c20, 'c20-children': c20_children, 'c20-ownership': c20_ownership}[key[1]]
     return fn(name, text, *key[2:])
